@@ -459,6 +459,57 @@ def extract_checked(repo: Path) -> dict:
     return info
 
 
+STATE_CLASS_HINTS = ('TransferState', 'init_from_state')
+
+
+def outside_sites(repo: Path) -> list:
+    """Where a transfer's state is written OUTSIDE the state classes: per source file (transfer/state.py excluded — that
+    file is what the table above is read from), the number of direct assignments to a `.state` attribute and of calls of a
+    `.transition(…)` method. Outside `transfer/` an assignment only counts when its right-hand side names the transfer
+    state classes (connections and tracked users have a `state` attribute of their own).
+    Sorted list of (file relative to src/aioslsk, 'assign' | 'transition', count)."""
+    root = repo / 'src/aioslsk'
+    out = []
+    for f in sorted(root.rglob('*.py')):
+        rel = f.relative_to(root).as_posix()
+        if rel == 'transfer/state.py':
+            continue
+        try:
+            tree = ast.parse(f.read_text())
+        except SyntaxError as e:
+            raise TranslateError(f'{rel}: {e}')
+        in_transfer = rel.startswith('transfer/')
+        n_assign = n_trans = 0
+        for n in ast.walk(tree):
+            targets, value = [], None
+            if isinstance(n, ast.Assign):
+                targets, value = n.targets, n.value
+            elif isinstance(n, (ast.AnnAssign, ast.AugAssign)):
+                targets, value = [n.target], n.value
+            elif isinstance(n, ast.NamedExpr):
+                targets, value = [n.target], n.value
+            for t in targets:
+                for tt in (t.elts if isinstance(t, (ast.Tuple, ast.List)) else [t]):
+                    if isinstance(tt, ast.Attribute) and tt.attr == 'state':
+                        src = ast.unparse(value) if value is not None else ''
+                        names_states = any(h in src for h in STATE_CLASS_HINTS) or \
+                            any(isinstance(x, ast.Name) and x.id.endswith('State') and x.id != 'ConnectionState'
+                                for x in ast.walk(value)) if value is not None else False
+                        if in_transfer or names_states:
+                            n_assign += 1
+            if isinstance(n, ast.Call) and isinstance(n.func, ast.Attribute) and n.func.attr == 'transition':
+                n_trans += 1
+            # setattr(x, 'state', …)
+            if isinstance(n, ast.Call) and isinstance(n.func, ast.Name) and n.func.id == 'setattr' and len(n.args) >= 2 \
+                    and isinstance(n.args[1], ast.Constant) and n.args[1].value == 'state' and in_transfer:
+                n_assign += 1
+        if n_assign:
+            out.append((rel, 'assign', n_assign))
+        if n_trans:
+            out.append((rel, 'transition', n_trans))
+    return out
+
+
 def edges(info: dict) -> set:
     """(direction, from, to) triples of the table (used by the harness for reporting)."""
     out = set()
@@ -507,12 +558,20 @@ def render(info: dict) -> str:
     L.append('')
     L.append(f'/-- number of overridden (state, method) pairs -/')
     L.append(f'def overriddenCount : Nat := {n}')
+    if 'outside' in info:
+        L.append('')
+        L.append('/-- state writes outside the state classes: (file under src/aioslsk, kind, count); kind `assign` = direct')
+        L.append('assignment to a `.state` attribute, `transition` = call of `.transition(…)`; transfer/state.py excluded -/')
+        L.append('def outsideSites : List (String × String × Nat) :=')
+        L.append('  [' + ', '.join(f'("{a}", "{b}", {c})' for a, b, c in info['outside']) + ']')
     L.append('end AioslskVerif.Generated.Transfer')
     return '\n'.join(L) + '\n'
 
 
 def generate(repo: Path, lean_dir: Path) -> str:
-    text = render(extract_checked(repo))
+    info = dict(extract_checked(repo))
+    info['outside'] = outside_sites(repo)
+    text = render(info)
     p = lean_dir / 'AioslskVerif/Generated/TransferTable.lean'
     if not p.exists() or p.read_text() != text:
         p.write_text(text)
